@@ -206,6 +206,20 @@ func enumerateA(tier string, emit func(string)) {
 			})
 		}
 	}
+	// redefinition: the name is first defined with ANOTHER lambda list (a different number of required parameters,
+	// the optional section flipped) and called once, then redefined with the shape under test: nothing of the
+	// earlier definition (a cached count, a cached binding plan) may survive. Positional arguments only.
+	for _, sh := range shapes(b) {
+		code := sh.code()
+		maxPos := sh.req + len(sh.opt) + 2
+		for p := 0; p <= maxPos; p++ {
+			pos := make([]string, p)
+			for i := range pos {
+				pos[i] = "v"
+			}
+			emit("A|redefun|" + code + "|" + strings.Join(pos, ","))
+		}
+	}
 	for _, s := range defaultFormCases {
 		emit(s)
 	}
@@ -328,6 +342,34 @@ func execA(spec string) (res engine.Result) {
 		}
 		call := "(" + name + " " + strings.Join(at, " ") + ")"
 		src += call
+		val, err = lisp.EvalIn(scope, call)
+	case "redefun":
+		decoy := &shape{req: (sh.req + 1) % 4}
+		if len(sh.opt) == 0 {
+			decoy.opt = []bool{true}
+		}
+		dnames, _ := decoy.params()
+		ddef := "(defun " + name + " " + decoy.lambdaList() + " (list " + strings.Join(dnames, " ") + "))"
+		dargs := make([]string, decoy.req)
+		for i := range dargs {
+			dargs[i] = strconv.Itoa(900 + i)
+		}
+		dcall := "(" + name + " " + strings.Join(dargs, " ") + ")"
+		if _, derr := lisp.EvalIn(scope, ddef); derr != nil {
+			res.Fail("harness:decoy-definition-rejected", ddef+" => "+derr.String())
+			return
+		}
+		if _, derr := lisp.EvalIn(scope, dcall); derr != nil {
+			res.Fail("harness:decoy-call-rejected", ddef+" "+dcall+" => "+derr.String())
+			return
+		}
+		lisp.ResetTrace()
+		if !define() {
+			return
+		}
+		res.Hit("A:redefined-with-another-lambda-list")
+		call := "(" + name + " " + strings.Join(at, " ") + ")"
+		src = ddef + " " + dcall + " " + src + call
 		val, err = lisp.EvalIn(scope, call)
 	case "applysym":
 		if !define() {
